@@ -681,3 +681,8 @@ Theorem run_categories_counters_kept e o names c r :
     (exists inf, alookup u (s_urrs (c_s c)) = Some inf /\ ui_seqn inf' = ui_seqn inf) \/
     (created_by o u /\ ui_seqn inf' = 0).
 Proof. intros H. exact (proj2 (run_categories_kept e o names c r H)). Qed.
+
+Lemma usage_ie_defs (inf : urrinfo) (r : rpt) (t : N) :
+  no_times t = (flag_of USAR_TRIG_START t || flag_of USAR_TRIG_STOPT t || flag_of USAR_TRIG_MACAR t) /\
+  vol_flags inf r = N.lor (N.lor (r_vflags r) 7) (if ui_mnop inf then 56 else 0).
+Proof. split; reflexivity. Qed.
